@@ -43,6 +43,6 @@ ImplOut(v, pos)       == IF pos \in DataTypePositions THEN Conv(v) ELSE v
 PredictedLoss(v, pos) == ImplOut(v, pos) # v
 
 Features == {"rec", "dup_types", "imports", "tag", "table", "memory", "mem64", "globals", "exports",
-             "start", "elem", "data", "customs"}
+             "start", "elem", "data", "customs", "names_front"}
 
 =============================================================================
